@@ -86,9 +86,9 @@ def known_findings():
 
 # ------------------------------------------------------------------------------------------------ scenarios -> traces -> verdicts
 
-def gen_scenarios(family, n, seed, out, max_t=5, max_r=4, max_len=3, steps=5, fixed=None, wide=0.2):
+def gen_scenarios(family, n, seed, out, max_t=5, max_r=4, max_len=3, steps=5, fixed=None, wide=0.2, chain=-1):
     cmd = [os.path.join(BIN, "pie_run"), "gen", "--family", family, "--n", str(n), "--seed", str(seed), "--out", out,
-           "--max-t", str(max_t), "--max-r", str(max_r), "--max-len", str(max_len), "--steps", str(steps), "--wide", str(wide)]
+           "--max-t", str(max_t), "--max-r", str(max_r), "--max-len", str(max_len), "--steps", str(steps), "--wide", str(wide), "--chain", str(chain)]
     if fixed:
         cmd += ["--fixed", "%d,%d,%d" % fixed]
     sh(cmd, timeout=600)
@@ -180,10 +180,10 @@ def write_evidence(prop, tier, seed, level, coverage, wall_s, violations, assump
 PIE_PROPS = {
     "C01": {"fams": [("WF", 300, 2000, {}), ("WF", 100, 800, {"max_t": 7, "max_r": 5, "steps": 6})], "curated": ["known_findings.jsonl"], "design": ["td"]},
     "C02": {"fams": [("WF", 250, 2000, {}), ("WF", 80, 800, {"max_t": 7, "max_r": 5, "steps": 6})], "curated": ["f1_same_target_twice.jsonl"], "design": ["td"]},
-    "C03": {"fams": [("WF", 150, 2000, {"steps": 6}), ("WF", 300, 2000, {"max_t": 8, "max_r": 5, "steps": 7}), ("WF", 150, 1500, {"max_t": 8, "steps": 7, "wide": 1.0})], "curated": ["known_findings.jsonl"], "design": ["bu"]},
-    "C04": {"fams": [("WF", 150, 2000, {"steps": 6}), ("WF", 300, 2000, {"max_t": 8, "max_r": 5, "steps": 7}), ("WF", 150, 1500, {"max_t": 8, "steps": 7, "wide": 1.0})], "curated": [], "design": ["bu"]},
+    "C03": {"fams": [("WF", 150, 2000, {"steps": 6}), ("WF", 300, 2000, {"max_t": 8, "max_r": 5, "steps": 7}), ("WF", 150, 1500, {"max_t": 8, "steps": 7, "wide": 1.0}), ("FAULT", 80, 800, {})], "curated": ["known_findings.jsonl", "bu_shapes.jsonl"], "design": ["bu"]},
+    "C04": {"fams": [("WF", 150, 2000, {"steps": 6}), ("WF", 300, 2000, {"max_t": 8, "max_r": 5, "steps": 7}), ("WF", 150, 1500, {"max_t": 8, "steps": 7, "wide": 1.0})], "curated": ["bu_shapes.jsonl"], "design": ["bu"]},
     "C05": {"fams": [("INJ", 150, 2000, {}), ("INJ", 50, 700, {"max_t": 7, "max_r": 5})], "curated": [], "design": ["inj"]},
-    "C06": {"fams": [("INJ", 120, 1500, {}), ("WF", 60, 600, {}), ("WF", 80, 600, {"max_t": 7, "max_r": 5, "steps": 6})], "curated": [], "design": ["inj"]},
+    "C06": {"fams": [("INJ", 150, 1500, {}), ("WF", 60, 600, {}), ("WF", 60, 600, {"max_t": 7, "max_r": 5, "steps": 6}), ("FAULT", 80, 600, {})], "curated": [], "design": ["inj"]},
     "C07": {"fams": [("INJ", 150, 2000, {}), ("INJ", 50, 700, {"max_t": 7, "max_r": 5})], "curated": [], "design": ["inj"]},
     "C08": {"fams": [("WF", 90, 1200, {}), ("TWOCHK", 40, 600, {}), ("ABORT", 50, 800, {})], "curated": ["k2_two_checkers.jsonl"], "design": ["td"]},
     "C09": {"fams": [("WF", 250, 2000, {}), ("WF", 80, 800, {"max_t": 7, "max_r": 5, "steps": 6})], "curated": [], "design": ["td"]},
